@@ -45,14 +45,18 @@ def build(repo, spec_dir, canary=False):
                  why='node_indices().partition(closure) (petgraph + Iterator::partition): two disjoint sets that together hold every state')
     # get_parent_states: every returned state has an edge into the splitter block
     PAR = 'forall|s: State| x@.contains(s) ==> exists|t: State| a@.contains(t) && #[trigger] self.graph.edges().contains_key((s, t))'
+    # exactness (C01, C05, C16): Hopcroft splits by the states that have a transition on THIS symbol into the splitter; a symbol is a label (text and both counts)
+    PARX = 'forall|s: State| x@.contains(s) ==> exists|t: State| a@.contains(t) && #[trigger] self.graph.edges().contains_key((s, t)) && label_eq(self.graph.edges()[(s, t)], *label)'
+    XP = ['C01', 'C05', 'C16']
     ks = 'into_iter_hash_keys(it1.snapshot@)'
     b.verified_fn('dfa.rs', 'get_parent_states', within=Dm, props=['C07'], fname='Dfa::get_parent_states',
                   pre=lambda t, log, w: D.desugar_for_patterns(t, log, w),
-                  clauses=[Clause('get_parent_states.are_parents', PAR.replace('x@', 'r@'), ['C16', 'C07'])],
+                  clauses=[Clause('get_parent_states.are_parents', PAR.replace('x@', 'r@'), ['C16', 'C07']),
+                           Clause('get_parent_states.parents_on_the_same_symbol', PARX.replace('x@', 'r@'), XP)],          # fails on the unchanged tree: KF4 (same text and same minimum OR same maximum is accepted)
                   loops={1: ['%s.to_set() == a@' % ks, 'it1.seq().len() == %s.len()' % ks, '(forall|i: int| 0 <= i < it1.seq().len() ==> *#[trigger] it1.seq()[i] == %s[i])' % ks,
-                             ('get_parent_states.are_parents@loop1', ['C16', 'C07'], PAR)],
+                             ('get_parent_states.are_parents@loop1', ['C16', 'C07'], PAR), ('get_parent_states.parents_on_the_same_symbol@loop1', XP, PARX)],
                          2: ['a@.contains(state)', 'forall|t: State| direct_parent_states@.contains(t) <==> self.graph.edges().contains_key((t, state))',
-                             ('get_parent_states.are_parents@loop2', ['C16', 'C07'], PAR)]},
+                             ('get_parent_states.are_parents@loop2', ['C16', 'C07'], PAR), ('get_parent_states.parents_on_the_same_symbol@loop2', XP, PARX)]},
                   blocks=[(1, 'loop_start', '            proof { let ks = %s; assert(ks.to_set().contains(ks[it1.index@])) by { assert(ks.contains(ks[it1.index@])); } }' % ks),
                           ('let direct_parent_states', 'before', '            proof { assert(a@.contains(state)); }'),
                           (2, 'loop_start', '                proof { assert(direct_parent_states@.contains(parent_state)) by { assert(it2.seq()[it2.index@] == parent_state); } }')])
